@@ -13,6 +13,12 @@ claimed = {
              text='Every accepted program of the enumerated families runs on VM and interpreter; Go panics are captured per thread, deadlock and livelock are terminal scheduler states, non-termination is a poll-budget overrun. Complete within the bounds.', ref='5/C02'),
  'C04': dict(technique='bounded exhaustive differential enumeration (interpreter vs VM)',
              text='Every accepted program of the enumerated families is run on both backends and the observation records are compared; complete enumeration within the bounds.', ref='5/C04'),
+ 'C10': dict(technique='stateless DFS over all thread schedules and cancellation points of the real VM within a delay bound (controlled scheduler); exhaustive cancellation-poll enumeration for the interpreter',
+             text='The host cancel is a one-step thread, so every cancellation point is one scheduling deviation; all schedules within the delay bound are executed on the real VM code and judged (Wait returns termination or own outcome, nothing left blocked, bounded overshoot). Deadlock and livelock are terminal states of the scheduler, not timeouts.', ref='5/C10'),
+ 'C16': dict(technique='explicit enumeration of all host-call histories up to a depth x all schedules within a delay bound, against the reference evaluator',
+             text='All histories of SpawnSync calls over a call alphabet up to a depth on one live VM, each under all schedules within the delay bound; per-call results equal the reference model, no residue, failure instead of blocking after a failed call.', ref='5/C16'),
+ 'C17': dict(technique='stateless DFS over all thread interleavings of the real VM within a delay bound (controlled scheduler over lock/channel/select/sleep/spawn points)',
+             text='All schedules within the delay bound for programs spawning 1-3 cores; each spawned function runs exactly once with spawn-time arguments, Wait returns only after all cores finished, fatal interrupt reported and the rest cancelled, no deadlock. Unsynchronised accesses are outside the scheduler model (auxiliary race-detector pass).', ref='5/C17'),
 }
 checks = []
 for pid, c in claimed.items():
